@@ -360,6 +360,34 @@ def stream_panic(seed, n, max_obj=4):
         yield (f"panic-{seed}-{i}-{shape}{k}", e.ops)
 
 
+def stream_shallow(seed, n, max_obj=4):
+    """`make_mut` on members of adopted groups whose payload clones shallowly (the clone copies no
+    handle, so giving up the old handle can orphan the group *inside* make_mut), with and without a
+    panicking member destructor; no destructor scripts (the handle is out of the table while
+    make_mut runs)"""
+    rng = random.Random(seed ^ 0x5A110)
+    alpha = ["makeMut"] * 5 + ["clone", "clone", "drop", "drop", "downgrade", "dropWeak", "link", "unlink", "counts",
+                               "wcounts", "upgrade", "tryUnwrap", "dropValue", "getMut"]
+    for i in range(n):
+        e = Est()
+        shape = rng.choice(["ring", "ringtail", "clique", "parallel", "selfclone", "twocycles", "diamond", "chain"])
+        k = rng.randint(1, max_obj)
+        build_shape(rng, e, shape, k, 0.1)
+        for _ in range(rng.randint(1, k)):
+            e.raw(f"setShallow {rng.randrange(max(1, len(e.roots)))}")
+        if rng.random() < 0.5:
+            e.raw(f"setPanic {rng.randrange(max(1, len(e.roots)))}")
+        if rng.random() < 0.5:
+            e.downgrade(rng.randrange(max(1, len(e.roots))))
+        # leave few outside handles so that make_mut's internal drop can be the orphaning one
+        for _ in range(rng.randint(0, max(0, len(e.roots) - 1))):
+            if len(e.roots) > 1:
+                e.drop(rng.randrange(len(e.roots)))
+        mix(rng, e, rng.randint(1, 6), alpha)
+        drop_all(rng, e, 1.0)
+        yield (f"shallow-{seed}-{i}-{shape}{k}", e.ops)
+
+
 def stream_abort(seed, n, max_obj=3):
     """a member destructor clones (abort) or merely drops/upgrades a handle to a dying peer"""
     rng = random.Random(seed ^ 0xAB027)
